@@ -3,7 +3,8 @@
 //   - TestReplay (spec -> code): every descriptor enumerated by RingLookupMC.tla comes with the
 //     results the specification demands for every key class, operation, replication factor and
 //     zone-awareness setting, and with the ring-wide replication sets; the driver builds the real
-//     ring.Ring (inside a synctest bubble, so heartbeat ages are exact) and compares Ring.Get /
+//     ring.Ring (inside a synctest bubble, so heartbeat ages are exact; every descriptor once with the
+//     clock on a whole second and once half a second into one, see hbBack) and compares Ring.Get /
 //     Ring.GetWithOptions / Ring.GetReplicationSetForOperation for every concrete key of every class.
 //   - TestRecord (code -> spec): seeded random larger rings; tokens and keys are rank-compressed and
 //     every call is logged with its result; RingLookupTrace.tla accepts a line iff the logged
@@ -237,16 +238,41 @@ func callRset(r *ring.Ring, op ring.Operation) (res got) {
 	return observe(rs, err, nil)
 }
 
-func hbAge(class string, rnd *rand.Rand) int64 {
+// hbBack returns how many whole seconds before the current clock second the last heartbeat of an instance of
+// the given heartbeat class lies. Timestamps have second granularity, the clock has not: the heartbeat age is
+// back seconds plus the sub-second part of the clock, and the classes are about that age versus the timeout.
+//
+//	clock on a whole second:  fresh = 0, 1, 59 s     edge = exactly the timeout (60 s)     stale = 61 s or more
+//	clock inside a second:    fresh = 0, 1, 58 s + f  edge = 59 s + f (the largest age <= timeout such a
+//	                          timestamp can have)     stale = 60 s + f (timeout < age < timeout + 1 s) or more
+func hbBack(class string, sub bool, rnd *rand.Rand) int64 {
+	to := int64(hbTimeout / time.Second)
+	d := int64(0)
+	if sub {
+		d = 1
+	}
 	switch class {
 	case "fresh":
-		return []int64{0, 1, 59}[rnd.Intn(3)]
+		return []int64{0, 1, to - 1 - d}[rnd.Intn(3)]
 	case "edge":
-		return int64(hbTimeout / time.Second)
+		return to - d
 	case "stale":
-		return int64(hbTimeout/time.Second) + []int64{1, 1, 2, 86400}[rnd.Intn(4)]
+		return to - d + []int64{1, 1, 2, 86400}[rnd.Intn(4)]
 	}
 	panic("unknown heartbeat class " + class)
+}
+
+// atPhase lets the bubble clock run until its sub-second part is frac (0 <= frac < 1 s).
+func atPhase(frac time.Duration) time.Time {
+	cur := time.Duration(time.Now().Nanosecond())
+	if d := (frac - cur + time.Second) % time.Second; d != 0 {
+		time.Sleep(d)
+	}
+	return time.Now()
+}
+
+func ageOf(back int64, now time.Time) float64 {
+	return float64(back) + float64(now.Nanosecond())/1e9
 }
 
 func buildDesc(l *mcLine, classes [][]uint32, ages []int64, now time.Time) *ring.Desc {
@@ -449,17 +475,20 @@ func replayFile(res *abs.Result, in replayInput, part string, seed int64, w, W i
 		ls := lineSeed(seed, raw)
 		rnd := rand.New(rand.NewSource(ls))
 		gt.n = int(ls % 1024) // which call variants a case gets depends on the descriptor and the seed only
-		ages := make([]int64, n)
-		for i := range ages {
-			if l.Ids[i] != 0 {
-				ages[i] = hbAge(l.Hb[i], rnd)
+		// heartbeat timestamps for a clock on a whole second [0] and half a second into one [1]
+		var backs [2][]int64
+		for ph := range backs {
+			backs[ph] = make([]int64, n)
+			for i := range backs[ph] {
+				if l.Ids[i] != 0 {
+					backs[ph][i] = hbBack(l.Hb[i], ph == 1, rnd)
+				}
 			}
 		}
 		embeddings := []struct {
 			name    string
 			classes [][]uint32
 		}{{"boundary", boundary}, {"random", abs.RandomKeyClasses(nk, gaps, rnd)}}
-		now := time.Now()
 		allMask := 0
 		for i := range l.Ids {
 			if l.Ids[i] != 0 {
@@ -471,6 +500,10 @@ func replayFile(res *abs.Result, in replayInput, part string, seed int64, w, W i
 		for zi, za := range []bool{false, true} {
 			for rf := 1; rf <= rfMax; rf++ {
 				for ei, emb := range embeddings {
+					// every descriptor is replayed with the clock on a whole second and half a second into one
+					ph := (ei + rf + zi) % 2
+					now := atPhase(time.Duration(ph) * 500 * time.Millisecond)
+					ages := backs[ph]
 					desc := buildDesc(&l, emb.classes, ages, now)
 					r, stop, err := abs.NewRing(desc, ring.Config{ReplicationFactor: rf, ZoneAwarenessEnabled: za, HeartbeatTimeout: hbTimeout, SubringCacheDisabled: true})
 					if err != nil {
@@ -479,7 +512,7 @@ func replayFile(res *abs.Result, in replayInput, part string, seed int64, w, W i
 					rings++
 					caseOf := func(extra map[string]any) map[string]any {
 						c := map[string]any{"universe": in.Label, "embedding": emb.name, "rf": rf, "za": za,
-							"instances": describe(&l, emb.classes, ages)}
+							"clockSubSecond": now.Nanosecond() != 0, "instances": describe(&l, emb.classes, ages, now)}
 						for k, v := range extra {
 							c[k] = v
 						}
@@ -563,7 +596,7 @@ func replayFile(res *abs.Result, in replayInput, part string, seed int64, w, W i
 	add("descriptors", descs)
 }
 
-func describe(l *mcLine, classes [][]uint32, ages []int64) []map[string]any {
+func describe(l *mcLine, classes [][]uint32, ages []int64, now time.Time) []map[string]any {
 	var out []map[string]any
 	for i := range l.Ids {
 		if l.Ids[i] == 0 {
@@ -574,7 +607,7 @@ func describe(l *mcLine, classes [][]uint32, ages []int64) []map[string]any {
 			toks = append(toks, classes[p][0])
 		}
 		out = append(out, map[string]any{"id": abs.InstID(i + 1), "zone": abs.ZoneName(l.Zone[i]), "state": l.State[i],
-			"heartbeat": l.Hb[i], "heartbeatAgeSeconds": ages[i], "tokens": toks, "tokenClasses": l.Toks[i]})
+			"heartbeat": l.Hb[i], "heartbeatAgeSeconds": ageOf(ages[i], now), "tokens": toks, "tokenClasses": l.Toks[i]})
 	}
 	return out
 }
@@ -601,6 +634,7 @@ type recKey struct {
 
 type recRing struct {
 	Ring  int      `json:"ring"`
+	Clock int      `json:"clock_ms"` // sub-second part of the clock when the ring was looked up
 	M     int      `json:"m"`
 	RF    int      `json:"rf"`
 	ZA    bool     `json:"za"`
@@ -708,7 +742,7 @@ func randomRing(seed int64, idx int, now time.Time) (desc *ring.Desc, cfg ring.C
 		}
 		id := abs.InstID(i + 1)
 		desc.Ingesters[id] = ring.InstanceDesc{Id: id, Addr: "addr-" + id, Zone: abs.ZoneName(z), State: abs.StateOf(st),
-			Tokens: toks, Timestamp: now.Unix() - hbAge(hb, rnd), RegisteredTimestamp: now.Unix() - 3600}
+			Tokens: toks, Timestamp: now.Unix() - hbBack(hb, now.Nanosecond() != 0, rnd), RegisteredTimestamp: now.Unix() - 3600}
 		rec.Zone = append(rec.Zone, z)
 		rec.State = append(rec.State, st)
 		rec.Hb = append(rec.Hb, hb)
@@ -734,10 +768,18 @@ func TestRecord(t *testing.T) {
 			return
 		}
 		defer w.Close()
-		now := time.Now()
 		bufCaps := []int{0, 1, 2, ring.GetBufferSize}
 		for idx := 0; idx < nRings; idx++ {
+			// the clock is on a whole second for a third of the rings and at a random millisecond otherwise;
+			// heartbeat classes are concretised against the timeout for that clock (hbBack)
+			prnd := rand.New(rand.NewSource(seed*7919 + int64(idx)))
+			frac := time.Duration(0)
+			if prnd.Intn(3) > 0 {
+				frac = time.Duration(1+prnd.Intn(999)) * time.Millisecond
+			}
+			now := atPhase(frac)
 			desc, cfg, rec, tokens, rnd := randomRing(seed, idx, now)
+			rec.Clock = now.Nanosecond() / 1e6
 			r, stop, err := abs.NewRing(desc, cfg)
 			if err != nil {
 				res.Fatal = "NewRing: " + err.Error()
